@@ -58,6 +58,7 @@ EXPECTED_PROBES = ["split_at_zero", "double_interrupt", "clone_then_save", "clon
                    "plateau_scheduler_reduced_lr", "dataset_optimizer_present", "reload_zip",
                    "reload_dir", "opt_sgd", "opt_adam", "opt_adamw", "sched_cyclic", "sched_linear",
                    "sched_exp", "obj_potential", "obj_pure_phase", "modes2", "slices2", "sched_cyclic_momentum", "sched_plateau_with_counters", "opt_extra_betas", "opt_extra_amsgrad", "opt_extra_weight_decay", "opt_extra_nesterov", "long_first_segment", "reload_in_another_interpreter", "device_move_cpu_to_cpu",
+                   "learnable_probe_tilt", "bilinear_centring_of_subpixel_origin",
                    "clone_independence_checked", "clone_fallback_natural",
                    "save_then_continue_same_object", "reset_after_interruption"]
 RTOL = 1e-5   # candidate threshold; a candidate is a violation only beyond NOISE_FACTOR x measured drift
@@ -191,6 +192,15 @@ def gen(rng: Rng, tier, i):
            # (overridden below when the dataset model is optimised)
            # validation split made by Ptychography.preprocess / attributes (deterministic grid mode)
            "val_ratio": rng.fork("val").pick([0.0, 0.0, 0.25, 0.5, 0.2]),
+           # a learnable probe tilt (second probe parameter; acts through the multislice propagators;
+           # a zero tilt never receives a gradient)
+           # how the DATASET was preprocessed (state that is derived at preprocess time and has to
+           # survive a reload): interpolation used for centring, sub-pixel descan, fit function
+           "dset": rng.fork("dset").pick([None] * 4 + [
+               {"bilinear": True, "descan": [0.37, -0.42]}, {"bilinear": False, "descan": [0.37, -0.42]},
+               {"bilinear": True, "descan": [0.0, 0.0]},
+               {"bilinear": True, "descan": [-0.6, 0.25], "com_fit": "plane"}]),
+           "probe_tilt": rng.fork("tilt").pick([None] * 5 + [[0.0, 0.0], [2.0, -1.0], [0.0, 1.5]]),
            "snapshots": rng.pick([None, None, 1, 2]), "rng": rng.randrange(10 ** 6),
            "loss": rng.pick(["l2_amplitude", "l2_amplitude", "l1_amplitude", "l2_intensity"])
            if rng.chance(0.8) else rng.fork("loss2").pick(["poisson", "l1_intensity"]),
@@ -246,7 +256,9 @@ def _opt_params(cfg):
 
 def _build(cfg):
     pt = tinyptycho.make_ptycho(cfg["data_seed"], obj_type=cfg["obj_type"], num_slices=cfg["slices"],
-                                n_modes=cfg["modes"], rng=cfg["rng"], scan=tuple(cfg["scan"]))
+                                n_modes=cfg["modes"], rng=cfg["rng"], scan=tuple(cfg["scan"]),
+                                probe_tilt=cfg.get("probe_tilt") if cfg["slices"] == 2 else None,
+                                dset_opts=cfg.get("dset"))
     if cfg.get("val_ratio"):
         pt.val_ratio = cfg["val_ratio"]      # what preprocess(val_ratio=...) stores
         pt.val_mode = "grid"                 # deterministic split (a random one is re-seeded on load)
@@ -482,6 +494,12 @@ def run(plan):
         bump(probes, "analytic_gradients")
     if cfg.get("val_ratio"):
         bump(probes, "validation_split")
+    if cfg.get("dset"):
+        bump(probes, "dataset_preprocessing_options")
+        if cfg["dset"].get("bilinear") and tuple(cfg["dset"].get("descan", (0, 0))) != (0.0, 0.0):
+            bump(probes, "bilinear_centring_of_subpixel_origin")
+    if cfg.get("probe_tilt") is not None and cfg["slices"] == 2:
+        bump(probes, "learnable_probe_tilt")
     if "dataset" in (cfg.get("constraints") or {}):
         bump(probes, "dataset_constraints")
     if cfg["loss"] in ("poisson", "l1_intensity"):
